@@ -10,7 +10,7 @@ cd /verif
 for id in "$@"; do
   out=/verif/work/logs/seeded_$(basename "$patch" .diff)_$id.log
   mkdir -p /verif/work/logs
-  timeout 3000 ./run_check.sh $id $tier > "$out" 2>&1
+  VERIF_EVIDENCE_DIR=/verif/work/seeded_evidence timeout 3000 ./run_check.sh $id $tier > "$out" 2>&1
   echo "== $id exit=$? $(grep -c '^VIOLATION' $out) violation line(s); $(grep '^SUMMARY' $out | cut -c1-200)"
   grep '^VIOLATION\|^  harness' "$out" | head -6 | cut -c1-260
 done
